@@ -17,7 +17,9 @@ THEOREMS = ["CKT.C13." + t for t in ["split_total", "mapM_total", "step_total", 
 RULE = ("random Clifford circuits (plus exact rational rotations, incl. near-deterministic small angles) with measurements and resets in any order on 1-5 qubits and 0-5 classical bits, up to 20 instructions, bits unused, "
         "written once or overwritten (incl. re-measuring a bit that already holds 1), barriers, conditioned operations and gates carrying classical "
         "bits (refused); non-Clifford rotations (incl. near-deterministic small angles) only in the failing-input search against the independent "
-        "density-matrix simulator; model probabilities are exact rationals, compared to 1e-9; distinct by payload")
+        "density-matrix simulator; model probabilities are exact rationals, compared to 1e-9; distinct by payload; fixed families: every gate name of "
+        "Qiskit's standard library on 1-4 qubits and user-defined gates under arbitrary names (independent simulator only for the names outside "
+        "the model's table), a classical bit overwritten by a second qubit followed by a reset and re-use of either qubit")
 ASSUMPTIONS = ["Qiskit Statevector.evolve / probabilities and IEEE rounding are outside the model; the implementation's 1e-16 pruning tolerance is modelled as 0",
                "the concrete Clifford backend of the model (exact Gaussian-rational amplitudes) is validated against the implementation, not proved Lawful",
                "through ExactSampler: QuasiDistribution keeps integer keys"]
@@ -58,7 +60,70 @@ def _gen(rng, tier, clifford=True):
     return {"nq": nq, "ncl": ncl, "instrs": instrs, "via": via}
 
 
+STD_ANGLES = [0.7, 0.3, -1.1, 0.45]
+
+
+def _std_gate_names():
+    """every gate of Qiskit's standard library (by operation name) acting on 1-4 qubits"""
+    from qiskit.circuit import Gate
+    from qiskit.circuit.library.standard_gates import get_standard_gate_name_mapping
+    return sorted((k, g.num_qubits, len(g.params)) for k, g in get_standard_gate_name_mapping().items()
+                  if isinstance(g, Gate) and 1 <= g.num_qubits <= 4)
+
+
+def _mk_std(name, params):
+    from qiskit.circuit.library.standard_gates import get_standard_gate_name_mapping
+    g = get_standard_gate_name_mapping()[name]
+    return g.base_class(*[float(x) for x in params])
+
+
+# names a user may give to a gate of their own: single letters, pieces of the names of the special instructions
+USER_GATE_NAMES = ["a", "r", "m", "bar", "arr", "er", "meas", "res", "set", "barrier_", "measure2", "my reset"]
+
+
+def _deterministic_cases():
+    """seed-independent families (oracle on every case)"""
+    # (a) every standard-library gate name, once applied to |0..0> directly and once between layers of rotations; every qubit measured.
+    #     The model's gate table is a fixed Clifford(+rational rotation) list, so these go to the independent simulator only.
+    for idx, (name, k, npar) in enumerate(_std_gate_names()):
+        g = {"name": "std", "gate": name, "params": STD_ANGLES[:npar], "qubits": list(range(k))}
+        meas = [{"name": "measure", "qubits": [q], "clbits": [q]} for q in range(k)]
+        yield ("simulate", {"nq": k, "ncl": k, "instrs": [g] + meas, "via": "func" if idx % 2 else "sampler", "oracle_only": True, "always_oracle": True})
+        pre = [{"name": "ry", "qubits": [q], "params": [0.9 + 0.4 * q]} for q in range(k)]
+        post = [{"name": "rx", "qubits": [q], "params": [-0.6 + 0.5 * q]} for q in range(k)]
+        yield ("simulate", {"nq": k, "ncl": k, "instrs": pre + [g] + post + meas, "via": "sampler" if idx % 2 else "func",
+                            "oracle_only": True, "always_oracle": True})
+    # (b) user-defined gates under arbitrary names (the existing family always names them "prep")
+    for idx, nm in enumerate(USER_GATE_NAMES):
+        inner = [[{"name": "x", "qubits": [0]}], [{"name": "h", "qubits": [0]}, {"name": "s", "qubits": [0]}], [{"name": "sx", "qubits": [0]}]][idx % 3]
+        instrs = [{"name": "h", "qubits": [1]}, {"name": "custom", "qubits": [0], "inner": inner, "gname": nm},
+                  {"name": "barrier", "qubits": [0, 1]}, {"name": "cx", "qubits": [0, 1]},
+                  {"name": "measure", "qubits": [0], "clbits": [0]}, {"name": "measure", "qubits": [1], "clbits": [1]}]
+        yield ("simulate", {"nq": 2, "ncl": 2, "instrs": instrs, "via": "func" if idx % 2 else "sampler", "always_oracle": True})
+    # (c) a classical bit written by one qubit and then overwritten by another one, with a reset of either qubit afterwards and the
+    #     reset qubit used again (measured, or controlling the other qubit): every interleaving measure / overwrite / reset / measure again
+    preps = [[{"name": "x", "qubits": ["A"]}], [{"name": "x", "qubits": ["B"]}],
+             [{"name": "h", "qubits": ["A"]}, {"name": "h", "qubits": ["B"]}],
+             [{"name": "h", "qubits": ["A"]}, {"name": "cx", "qubits": ["A", "B"]}, {"name": "x", "qubits": ["B"]}]]
+    mids = [[], [{"name": "barrier", "qubits": ["A", "B"]}], [{"name": "x", "qubits": ["B"]}], [{"name": "measure", "qubits": ["A"], "clbits": [2]}]]
+    tails = [[{"name": "measure", "qubits": ["R"], "clbits": [1]}],
+             [{"name": "cx", "qubits": ["R", "O"]}, {"name": "measure", "qubits": ["O"], "clbits": [1]}]]
+    n = 0
+    for a, b in ((0, 1), (1, 0)):
+        for prep in preps:
+            for mid in mids:
+                for rst in ("A", "B"):
+                    for tail in tails:
+                        names = {"A": a, "B": b, "R": a if rst == "A" else b, "O": b if rst == "A" else a}
+                        seq = (prep + [{"name": "measure", "qubits": ["A"], "clbits": [0]}, {"name": "measure", "qubits": ["B"], "clbits": [0]}]
+                               + mid + [{"name": "reset", "qubits": ["R"]}] + tail)
+                        instrs = [dict(i, qubits=[names[q] for q in i["qubits"]]) for i in seq]
+                        n += 1
+                        yield ("simulate", {"nq": 2, "ncl": 3, "instrs": instrs, "via": "sampler" if n % 3 == 0 else "func", "always_oracle": True})
+
+
 def cases(rng, tier):
+    yield from _deterministic_cases()
     N = 250 if tier == "quick" else 4000
     # two branches that reach the same classical outcome with states of equal magnitudes but different relative phase (reset of an
     # entangled qubit, or an overwritten classical bit), followed by a phase-sensitive gate and measurement
@@ -167,6 +232,10 @@ def _circ(payload, key="instrs"):
             for i2 in ins["inner"]:
                 sub.append(canon.mk_op(i2["name"]), [0])
             op = sub.to_gate()
+            if ins.get("gname"):
+                op.name = ins["gname"]
+        elif ins["name"] == "std":
+            op = _mk_std(ins["gate"], ins.get("params", ()))
         elif ins["name"] == "opaque_cl":
             op = Instruction("opaque_cl", 1, 1, [])
         elif ins["name"] == "barrier":
@@ -200,6 +269,9 @@ def _flat(instrs):
 
 
 def model_line(kind, payload):
+    if payload.get("oracle_only"):
+        # gate names outside the model's gate table: nothing to compare, the independent simulator (oracle) decides
+        return {"op": "c13.simulate", "nq": 1, "instrs": []}
     return {"op": "c13.simulate", "nq": payload["nq"],
             "instrs": [{"name": i["name"], "qubits": i["qubits"], "clbits": i.get("clbits", []), "conditioned": bool(i.get("cond")), "t": i.get("t", "0/1")} for i in _flat(payload["instrs"])]}
 
@@ -227,6 +299,8 @@ def run_real(kind, payload):
 
 
 def model_canon(kind, payload, out):
+    if payload.get("oracle_only"):
+        return None
     if "driver_error" in out:
         raise RuntimeError(out["driver_error"])
     if "error" in out:
@@ -235,6 +309,8 @@ def model_canon(kind, payload, out):
 
 
 def compare(kind, payload, real, model):
+    if payload.get("oracle_only"):
+        return None
     if "error" in real or "error" in model:
         return None if real == model else f"real={str(real)[:200]} model={str(model)[:200]}"
     r = {k: v for k, v in real["ok"]}
